@@ -131,8 +131,9 @@ def fam_polyline(R, npts, closed, smooth_closing=False, concrete=None):
             R.unexpected(ctx, 'unexpected %s %r' % (kind, val))
             continue
         V, mj, tg, segs, (rk, q) = val
-        if R.paths <= 2:
-            R.witness(ctx, 'path-condition')          # not vacuous
+        if R.paths <= 2 and ctx.unknown_feas == 0:
+            # not vacuous (paths entered through an undecided feasibility question may legitimately be infeasible: no witness asked there)
+            R.witness(ctx, 'path-condition')
 
         def cex(m):
             pts = [mcval(m, v) for v in V]
